@@ -4,6 +4,7 @@ import (
 	"bytes"
 	"crypto/rsa"
 	"crypto/sha256"
+	"fmt"
 	"math/big"
 
 	"github.com/cloudflare/circl/oprf"
@@ -72,6 +73,21 @@ func runC18(c *h.Ctx) {
 		maxBits = 4800
 	}
 	var sampleEnc [][]byte
+	// encodings handed out earlier must keep their contents whatever is encoded afterwards (a key id is the hash of
+	// the serialized key: an encoding that changes under its holder is no longer that key's encoding)
+	type heldEnc struct {
+		live, snap []byte
+		what       string
+	}
+	var held []heldEnc
+	checkHeld := func(from int, after string) {
+		for i := from; i < len(held); i++ {
+			if !bytes.Equal(held[i].live, held[i].snap) {
+				c.Violation("an encoding returned earlier changed when another key was encoded afterwards", map[string]any{"encoding_of": held[i].what, "after": after, "was": h.Hex(held[i].snap), "now": h.Hex(held[i].live)})
+				held[i].snap = append([]byte{}, held[i].live...)
+			}
+		}
+	}
 	for bits := 0; bits <= maxBits; bits += step {
 		if bits > 300 && !c.Thorough() {
 			step = 7
@@ -98,6 +114,8 @@ func runC18(c *h.Ctx) {
 					name = "marshal_legacy"
 				}
 				c.Case("marshal:"+name+":every-bit-length", true, name, [][]byte{n.Bytes(), eb}, [][]byte{enc})
+				checkHeld(maxInt(0, len(held)-4), fmt.Sprintf("%s of a %d-bit key", name, bits))
+				held = append(held, heldEnc{enc, append([]byte{}, enc...), fmt.Sprintf("%s of a %d-bit key", name, bits)})
 				k, err := c18Unmarshal(c, "unmarshal:of-own-encoding", enc)
 				if err != nil || k == nil || k.N.Cmp(n) != 0 || k.E != e {
 					c.Violation("decoding inverts encoding of an RSA token key", map[string]any{"bits": bits, "e": e, "legacy": legacy == 1, "encoding": h.Hex(enc)})
@@ -121,6 +139,11 @@ func runC18(c *h.Ctx) {
 			sampleEnc = append(sampleEnc, enc)
 		}
 	}
+	for i := 0; i < 2; i++ { // ... and whatever an issuer derives afterwards
+		type2.NewBasicPublicIssuer(rsaKey(i)).TokenKeyID()
+		type3.NewRateLimitedIssuer(rsaKey(i)).TokenKeyID()
+	}
+	checkHeld(0, "all later encodings and issuer key ids")
 	// 2. the tolerant reader on malformed / non-canonical DER (model <-> code) ----------------------------------------
 	for _, enc := range sampleEnc {
 		for l := 0; l < len(enc); l += 1 + len(enc)/60 {
@@ -312,4 +335,11 @@ func runC18(c *h.Ctx) {
 			}
 		}
 	}
+}
+
+func maxInt(a, b int) int {
+	if a > b {
+		return a
+	}
+	return b
 }
